@@ -46,8 +46,32 @@ struct Expect {
     spectrum: Option<Vec<C>>,
     charpoly: Option<Vec<f64>>,
     real_sep: Option<RealSep>,
-    /// Some(true): the exact spectrum has a multiple eigenvalue; Some(false): all simple; None: unknown
-    multiple: Option<bool>,
+    multiple: Multiplicity,
+}
+
+/// Does the exact spectrum have a multiple eigenvalue? (input class of a convergence failure)
+#[derive(Default)]
+enum Multiplicity {
+    #[default]
+    Unknown,
+    Known(bool),
+    /// decided on demand from the exact integer characteristic polynomial
+    FromPoly(Vec<i64>),
+}
+
+impl Multiplicity {
+    fn class(&self) -> &'static str {
+        let m = match self {
+            Multiplicity::Unknown => None,
+            Multiplicity::Known(b) => Some(*b),
+            Multiplicity::FromPoly(c) => Some(orc::has_multiple_root(c)),
+        };
+        match m {
+            Some(true) => ":repeated-eigenvalue",
+            Some(false) => ":simple-spectrum",
+            None => ":multiplicity-unknown",
+        }
+    }
 }
 
 // calibration: worst observed value / tolerance per clause
@@ -83,7 +107,14 @@ struct Out {
     cal: [f64; 10],
 }
 
-impl Out {
+/// violations and calibration ratios accumulated while judging one returned decomposition
+#[derive(Default)]
+struct Acc {
+    viols: Vec<(&'static str, String)>,
+    cal: [f64; 10],
+}
+
+impl Acc {
     fn fail(&mut self, clause: &'static str, what: String) {
         if !self.viols.iter().any(|v| v.0 == clause) {
             self.viols.push((clause, what));
@@ -116,7 +147,7 @@ fn panic_site(comp: &str, p: &mc::PanicInfo) -> String {
         "arith"
     } else if m.contains("Too many iterations") {
         "no-convergence"
-    } else if m.contains("index out of bounds") || m.contains("out of range") {
+    } else if m.contains("index out of bounds") || m.contains("out of range") || m.contains("Invalid index") {
         "index"
     } else {
         "other"
@@ -149,94 +180,90 @@ fn fmt_mat(a: &Mat) -> String {
 
 /// One run of the real solver on `base * 2^sexp` in width T, judged against the statement.
 fn judge<T: RealNumber>(base: &Mat, sym: bool, sexp: i32, exp: &Expect) -> Out {
-    let mut out = Out::default();
     let s = 2f64.powi(sexp);
     let scaled: Mat = if sexp == 0 { base.clone() } else { o::scale(base, s) };
     let m: DenseMatrix<T> = dm::<T>(&scaled);
-    let a: Mat = rows_of(&m); // the actual input, exactly, as f64
+    let a: Mat = if std::mem::size_of::<T>() == 8 { scaled } else { rows_of(&m) }; // the actual input, exactly, as f64
     let n = a.len();
     let width: u8 = if std::mem::size_of::<T>() == 4 { 32 } else { 64 };
-    let eps = o::eps_of(width);
     let comp = if sym { "evd.sym" } else { "evd.general" };
     let r = mc::guard(|| m.evd(sym));
-    out.a = a;
-    let a = &out.a.clone();
     let evd = match r {
         Err(p) => {
             let over = p.is_overflow_check();
             let mut site = panic_site(comp, &p);
-            if site.ends_with("panic-no-convergence") {
-                site.push_str(match exp.multiple {
-                    Some(true) => ":repeated-eigenvalue",
-                    Some(false) => ":simple-spectrum",
-                    None => ":multiplicity-unknown",
-                });
+            if !sym && site.ends_with("panic-no-convergence") {
+                site.push_str(exp.multiple.class());
             }
-            out.panic = Some((
-                site,
-                format!(
-                    "{} of {} (n={}, {}, scale 2^{}): {}{}",
-                    if sym { "evd(true)" } else { "evd(false)" },
-                    fmt_mat(a),
-                    n,
-                    if width == 32 { "f32" } else { "f64" },
-                    sexp,
-                    p.brief(),
-                    if over { " (only in builds with arithmetic overflow checks, e.g. the dev/test profile; plain release wraps)" } else { "" }
-                ),
-            ));
-            return out;
+            let what = format!(
+                "{} of {} (n={}, {}, scale 2^{}): {}{}",
+                if sym { "evd(true)" } else { "evd(false)" },
+                fmt_mat(&a),
+                n,
+                if width == 32 { "f32" } else { "f64" },
+                sexp,
+                p.brief(),
+                if over { " (only in builds with arithmetic overflow checks, e.g. the dev/test profile; plain release wraps)" } else { "" }
+            );
+            return Out { a, panic: Some((site, what)), ..Default::default() };
         }
         Ok(Err(e)) => {
-            out.fail("error", format!("evd({}) of {} returned Err({})", sym, fmt_mat(a), e));
-            return out;
+            let what = format!("evd({}) of {} returned Err({})", sym, fmt_mat(&a), e);
+            return Out { a, viols: vec![("error", what)], ..Default::default() };
         }
         Ok(Ok(x)) => x,
     };
-    out.returned = true;
-    out.d = vec_f64(&evd.d);
-    out.e = vec_f64(&evd.e);
-    out.v = rows_of(&evd.V);
-    let (d, e, v) = (out.d.clone(), out.e.clone(), out.v.clone());
-    let hdr = format!("{} n={} {} scale 2^{} A={}", if sym { "evd(true)" } else { "evd(false)" }, n, if width == 32 { "f32" } else { "f64" }, sexp, fmt_mat(a));
-    if d.len() != n || e.len() != n || o::shape(&v) != (n, n) {
-        out.fail("shape", format!("{}: |d|={} |e|={} V is {:?}", hdr, d.len(), e.len(), o::shape(&v)));
-        return out;
+    let (d, e, v) = (vec_f64(&evd.d), vec_f64(&evd.e), rows_of(&evd.V));
+    let mut acc = Acc::default();
+    check(&mut acc, &a, &d, &e, &v, sym, sexp, width, exp);
+    Out { viols: acc.viols, cal: acc.cal, panic: None, returned: true, d, e, v, a }
+}
+
+/// The oracle proper: judges the returned (d, e, V) for the input `a` (f64 image of the actual input).
+#[allow(clippy::too_many_arguments)]
+fn check(out: &mut Acc, a: &Mat, d: &[f64], e: &[f64], v: &Mat, sym: bool, sexp: i32, width: u8, exp: &Expect) {
+    let n = a.len();
+    let s = 2f64.powi(sexp);
+    let eps = o::eps_of(width);
+    let hdr = || format!("{} n={} {} scale 2^{} A={}", if sym { "evd(true)" } else { "evd(false)" }, n, if width == 32 { "f32" } else { "f64" }, sexp, fmt_mat(a));
+    if d.len() != n || e.len() != n || o::shape(v) != (n, n) {
+        out.fail("shape", format!("{}: |d|={} |e|={} V is {:?}", hdr(), d.len(), e.len(), o::shape(v)));
+        return;
     }
     if d.iter().chain(e.iter()).any(|x| !x.is_finite()) {
-        out.fail("non-finite-eigenvalue", format!("{}: d={:?} e={:?}", hdr, d, e));
-        return out;
+        out.fail("non-finite-eigenvalue", format!("{}: d={:?} e={:?}", hdr(), d, e));
+        return;
     }
     let fro = o::fro(a);
     let nf = n as f64;
     if sym {
         // ---- imaginary parts all zero, eigenvalues non-increasing (exact comparisons)
         if e.iter().any(|x| *x != 0.0) {
-            out.fail("imaginary-part-nonzero", format!("{}: e={:?}", hdr, e));
+            out.fail("imaginary-part-nonzero", format!("{}: e={:?}", hdr(), e));
         }
         if let Some(i) = (0..n.saturating_sub(1)).find(|&i| d[i] < d[i + 1]) {
-            out.fail("order", format!("{}: d[{}]={:e} < d[{}]={:e}; d={:?}", hdr, i, d[i], i + 1, d[i + 1], d));
+            out.fail("order", format!("{}: d[{}]={:e} < d[{}]={:e}; d={:?}", hdr(), i, d[i], i + 1, d[i + 1], d));
         }
-        if !o::all_finite(&v) {
-            out.fail("non-finite-eigenvector", format!("{}: V={}", hdr, fmt_mat(&v)));
-            return out;
+        if !o::all_finite(v) {
+            out.fail("non-finite-eigenvector", format!("{}: V={}", hdr(), fmt_mat(v)));
+            return;
         }
         // ---- orthonormal V
-        let od = o::orth_defect(&v);
+        let od = o::orth_defect(v);
         if out.over(0, od, C_SYM_ORTH * nf * eps) {
-            out.fail("not-orthonormal", format!("{}: max|V^T V - I| = {:e} > {:e}; V={}", hdr, od, C_SYM_ORTH * nf * eps, fmt_mat(&v)));
+            out.fail("not-orthonormal", format!("{}: max|V^T V - I| = {:e} > {:e}; V={}", hdr(), od, C_SYM_ORTH * nf * eps, fmt_mat(v)));
         }
         // ---- A V = V diag(d) relative to ||A||
         let tol = C_SYM_RESID * nf * eps * fro;
         let mut worst = (0.0f64, 0usize);
         for j in 0..n {
-            let (r, _) = eig_resid(a, &colv(&v, j), d[j]);
+            let (r, _) = eig_resid(a, &colv(v, j), d[j]);
             if r > worst.0 || r.is_nan() {
                 worst = (r, j);
             }
         }
         if out.over(1, worst.0, tol) {
-            out.fail("residual", format!("{}: ||A v_{} - d_{} v_{}|| = {:e} > {:e}; d={:?} V={}", hdr, worst.1, worst.1, worst.1, worst.0, tol, d, fmt_mat(&v)));
+            out.fail("residual", format!("{}: ||A v_{} - d_{} v_{}|| = {:e} > {:e}; d={:?} V={}", hdr(), worst.1, worst.1, worst.1, worst.0, tol, d, fmt_mat(v)));
         }
         // ---- the values are the eigenvalues: reference spectrum from the oracle's cyclic Jacobi
         //      (implied by the two clauses above through Weyl's inequality, hence the larger constant)
@@ -244,14 +271,14 @@ fn judge<T: RealNumber>(base: &Mat, sym: bool, sexp: i32, exp: &Expect) -> Out {
         let tol = C_SYM_SPEC * nf * eps * fro + 1e-13 * fro;
         let dev = d.iter().zip(&refd).map(|(x, y)| (x - y).abs()).fold(0.0f64, f64::max);
         if out.over(2, dev, tol) {
-            out.fail("spectrum", format!("{}: d={:?} but the eigenvalues are {:?} (max deviation {:e} > {:e})", hdr, d, refd, dev, tol));
+            out.fail("spectrum", format!("{}: d={:?} but the eigenvalues are {:?} (max deviation {:e} > {:e})", hdr(), d, refd, dev, tol));
         }
         if let Some(sp) = &exp.spectrum {
             let mut want: Vec<f64> = sp.iter().map(|z| z.0 * s).collect();
             want.sort_by(|x, y| y.partial_cmp(x).unwrap());
             let dev = d.iter().zip(&want).map(|(x, y)| (x - y).abs()).fold(0.0f64, f64::max);
             if out.over(2, dev, tol) {
-                out.fail("spectrum-closed-form", format!("{}: d={:?} but the closed-form eigenvalues are {:?} (max deviation {:e} > {:e})", hdr, d, want, dev, tol));
+                out.fail("spectrum-closed-form", format!("{}: d={:?} but the closed-form eigenvalues are {:?} (max deviation {:e} > {:e})", hdr(), d, want, dev, tol));
             }
         }
     } else {
@@ -261,7 +288,7 @@ fn judge<T: RealNumber>(base: &Mat, sym: bool, sexp: i32, exp: &Expect) -> Out {
         let neg: Vec<C> = (0..n).filter(|&i| e[i] < 0.0).map(|i| (d[i], -e[i])).collect();
         let pd = orc::spectra_distance(&pos, &neg);
         if out.over(6, pd, tol1) {
-            out.fail("conjugate-pairs", format!("{}: the complex values do not pair up (worst mismatch {:e} > {:e}): d={:?} e={:?}", hdr, pd, tol1, d, e));
+            out.fail("conjugate-pairs", format!("{}: the complex values do not pair up (worst mismatch {:e} > {:e}): d={:?} e={:?}", hdr(), pd, tol1, d, e));
         }
         // ---- sum = trace(A), sum of squares = trace(A^2)
         let tr: f64 = (0..n).map(|i| a[i][i]).sum();
@@ -274,11 +301,11 @@ fn judge<T: RealNumber>(base: &Mat, sym: bool, sexp: i32, exp: &Expect) -> Out {
         let sd: f64 = d.iter().sum();
         let sq: f64 = (0..n).map(|i| d[i] * d[i] - e[i] * e[i]).sum();
         if out.over(3, (sd - tr).abs(), tol1) {
-            out.fail("trace", format!("{}: sum of eigenvalues {:e} but trace(A) = {:e} (|diff| {:e} > {:e}); d={:?} e={:?}", hdr, sd, tr, (sd - tr).abs(), tol1, d, e));
+            out.fail("trace", format!("{}: sum of eigenvalues {:e} but trace(A) = {:e} (|diff| {:e} > {:e}); d={:?} e={:?}", hdr(), sd, tr, (sd - tr).abs(), tol1, d, e));
         }
         let tol2 = C_GEN * nf * eps * fro * fro;
         if out.over(4, (sq - tr2).abs(), tol2) {
-            out.fail("trace-of-square", format!("{}: sum of squared eigenvalues {:e} but trace(A^2) = {:e} (|diff| {:e} > {:e}); d={:?} e={:?}", hdr, sq, tr2, (sq - tr2).abs(), tol2, d, e));
+            out.fail("trace-of-square", format!("{}: sum of squared eigenvalues {:e} but trace(A^2) = {:e} (|diff| {:e} > {:e}); d={:?} e={:?}", hdr(), sq, tr2, (sq - tr2).abs(), tol2, d, e));
         }
         // ---- every column reported for a real eigenvalue is a non-zero eigenvector (backward-error form)
         let sep = exp.real_sep.as_ref();
@@ -287,21 +314,21 @@ fn judge<T: RealNumber>(base: &Mat, sym: bool, sexp: i32, exp: &Expect) -> Out {
             if !real && sep.is_none() {
                 continue;
             }
-            let vj = colv(&v, j);
+            let vj = colv(v, j);
             let (clause_zero, clause_nf, clause_res, cal, factor): (&'static str, &'static str, &'static str, usize, f64) =
                 if real { ("eigvec-zero", "eigvec-non-finite", "eigvec-residual", 5, 1.0) } else { ("real-separated-full-identity", "real-separated-full-identity", "real-separated-full-identity", 9, sep.unwrap().cond) };
             if vj.iter().any(|x| !x.is_finite()) {
-                out.fail(clause_nf, format!("{}: column {} of V (eigenvalue {:e}{:+e}i) is not finite: {:?}", hdr, j, d[j], e[j], vj));
+                out.fail(clause_nf, format!("{}: column {} of V (eigenvalue {:e}{:+e}i) is not finite: {:?}", hdr(), j, d[j], e[j], vj));
                 continue;
             }
             let (r, nv) = eig_resid(a, &vj, d[j]);
             if nv == 0.0 {
-                out.fail(clause_zero, format!("{}: column {} of V (eigenvalue {:e}{:+e}i) is the zero vector", hdr, j, d[j], e[j]));
+                out.fail(clause_zero, format!("{}: column {} of V (eigenvalue {:e}{:+e}i) is the zero vector", hdr(), j, d[j], e[j]));
                 continue;
             }
             let tol = C_GEN * nf * eps * fro * nv * factor;
             if out.over(cal, r, tol) {
-                out.fail(clause_res, format!("{}: ||A v - d v|| = {:e} > {:e} for column {} (eigenvalue {:e}{:+e}i, v={:?})", hdr, r, tol, j, d[j], e[j], vj));
+                out.fail(clause_res, format!("{}: ||A v - d v|| = {:e} > {:e} for column {} (eigenvalue {:e}{:+e}i, v={:?})", hdr(), r, tol, j, d[j], e[j], vj));
             }
         }
         // ---- every returned value is a root of the exact characteristic polynomial (backward-error form)
@@ -312,7 +339,7 @@ fn judge<T: RealNumber>(base: &Mat, sym: bool, sexp: i32, exp: &Expect) -> Out {
                 let pv = orc::poly_abs_at(cp, z);
                 let tol = C_GEN * nf * eps * (orc::cabs(z) + fb).powi(n as i32);
                 if out.over(7, pv, tol) {
-                    out.fail("eigenvalue-not-a-root", format!("{}: |p(lambda)| = {:e} > {:e} for lambda_{} = {:e}{:+e}i, p = det(xI - A/2^{}) = {:?}", hdr, pv, tol, j, d[j], e[j], sexp, cp));
+                    out.fail("eigenvalue-not-a-root", format!("{}: |p(lambda)| = {:e} > {:e} for lambda_{} = {:e}{:+e}i, p = det(xI - A/2^{}) = {:?}", hdr(), pv, tol, j, d[j], e[j], sexp, cp));
                 }
             }
         }
@@ -324,7 +351,7 @@ fn judge<T: RealNumber>(base: &Mat, sym: bool, sexp: i32, exp: &Expect) -> Out {
                 ds.sort_by(|x, y| x.partial_cmp(y).unwrap());
                 for (i, (lo, hi)) in rs.intervals.iter().enumerate() {
                     if !(ds[i] >= lo - rs.slack && ds[i] <= hi + rs.slack) {
-                        out.fail("real-separated-spectrum", format!("{}: the {}-th smallest returned real part {:e} is not in [{}, {}] (x 2^{}) where A has exactly one eigenvalue; d={:?} e={:?}", hdr, i, ds[i] * s, lo, hi, sexp, d, e));
+                        out.fail("real-separated-spectrum", format!("{}: the {}-th smallest returned real part {:e} is not in [{}, {}] (x 2^{}) where A has exactly one eigenvalue; d={:?} e={:?}", hdr(), i, ds[i] * s, lo, hi, sexp, d, e));
                         break;
                     }
                 }
@@ -343,12 +370,11 @@ fn judge<T: RealNumber>(base: &Mat, sym: bool, sexp: i32, exp: &Expect) -> Out {
             let tol = if gap > 4.0 * tol1 { tol1 } else { tol1 * nf };
             let dist = orc::spectra_distance(&got, &want);
             if out.over(8, dist, tol + 1e-13 * fro) {
-                out.fail("spectrum-normal-matrix", format!("{}: returned spectrum d={:?} e={:?} differs from the closed-form spectrum {:?} by {:e} > {:e}", hdr, d, e, want, dist, tol));
+                out.fail("spectrum-normal-matrix", format!("{}: returned spectrum d={:?} e={:?} differs from the closed-form spectrum {:?} by {:e} > {:e}", hdr(), d, e, want, dist, tol));
             }
         }
     }
-    out
-}
+    }
 
 fn class_of(width: u8, sexp: i32) -> String {
     let mut p: Vec<&str> = Vec::new();
@@ -530,10 +556,8 @@ fn lattice_case(job: &Job) {
             // tiny integer matrices with gaps >= h: the eigenvector matrix is well conditioned, no cond factor
             exp.real_sep = Some(RealSep { intervals: iv, slack: 0.5 * h, cond: 1.0 });
         }
-        exp.multiple = Some(orc::has_multiple_root(&cp));
         exp.charpoly = Some(cp.iter().map(|x| *x as f64).collect());
-    } else {
-        exp.multiple = None;
+        exp.multiple = Multiplicity::FromPoly(cp);
     }
     exec_case("lattice", &base, sym, sexp_eff, width, &exp, &[]);
 }
@@ -549,18 +573,18 @@ fn family_case(job: &Job) {
     let sexp = mc::pick(&scales);
     let width = mc::pick(&[64u8, 32u8]);
     let c = if sym { fam::sym_case(fam_name, n, v, seed) } else { fam::gen_case(fam_name, n, v, seed) };
-    let mut exp = Expect { spectrum: c.spectrum.clone(), charpoly: c.charpoly.clone(), real_sep: None, multiple: None };
+    let mut exp = Expect { spectrum: c.spectrum.clone(), charpoly: c.charpoly.clone(), real_sep: None, multiple: Multiplicity::Unknown };
     exp.multiple = if let Some(cp) = &c.charpoly {
-        Some(orc::has_multiple_root(&cp.iter().map(|x| *x as i64).collect::<Vec<_>>()))
+        Multiplicity::FromPoly(cp.iter().map(|x| *x as i64).collect::<Vec<_>>())
     } else if let Some(sp) = &c.spectrum {
         let scale = sp.iter().map(|z| orc::cabs(*z)).fold(0.0f64, f64::max).max(1e-300);
-        Some((0..sp.len()).any(|i| (0..i).any(|j| orc::cabs((sp[i].0 - sp[j].0, sp[i].1 - sp[j].1)) <= 1e-9 * scale)))
+        Multiplicity::Known((0..sp.len()).any(|i| (0..i).any(|j| orc::cabs((sp[i].0 - sp[j].0, sp[i].1 - sp[j].1)) <= 1e-9 * scale)))
     } else if c.real_sep.is_some() {
-        Some(false)
+        Multiplicity::Known(false)
     } else if c.tags.contains(&"gen_fam_defective") {
-        Some(true)
+        Multiplicity::Known(true)
     } else {
-        None
+        Multiplicity::Unknown
     };
     if let Some(eigs) = &c.real_sep {
         let mut sorted = eigs.clone();
